@@ -384,6 +384,10 @@ class Machine:
 
     def seq_eq(self, a, b):
         """Equality of two sequence-like values as a solver term / bool."""
+        if isinstance(a, FmtStr) and all(isinstance(p, str) for p in a.pieces) and not isinstance(b, (FmtStr, str)):
+            a = "".join(a.pieces).encode("latin1") if isinstance(b, bytes) or (isinstance(b, SymSeq) and b.kind == "bytes") else "".join(a.pieces)
+        if isinstance(b, FmtStr) and all(isinstance(p, str) for p in b.pieces) and not isinstance(a, (FmtStr, str)):
+            b = "".join(b.pieces).encode("latin1") if isinstance(a, bytes) or (isinstance(a, SymSeq) and a.kind == "bytes") else "".join(b.pieces)
         if isinstance(a, FmtStr) or isinstance(b, FmtStr):
             return self.fmt_eq(a, b)
         if isinstance(a, (str, bytes)) and isinstance(b, (str, bytes)):
@@ -495,6 +499,8 @@ class Machine:
         vals = [self.eval(e, env) for e in node.elts]
         if all(is_int(v) for v in vals):
             return self.new_list(SymSeq(conc_array(vals), 0, len(vals), "list"))
+        if vals and all(isinstance(v, str) and len(v) == 1 for v in vals):
+            return self.new_list(SymSeq(conc_array([ord(v) for v in vals]), 0, len(vals), "charlist"))
         return self.new_list(list(vals))
 
     def e_Tuple(self, node, env):
@@ -1143,6 +1149,8 @@ class Machine:
                 if not v.is_ascii_structural() or not all(ord(ch) < 128 for p in v.pieces if isinstance(p, str) for ch in p):
                     raise Unsupported("encoding of formatted text that is not ASCII-structural")
                 return v
+            if isinstance(v, str) and v and all(ord(ch) < 128 for ch in v):
+                return FmtStr([v])
         self.spec_mode += 1
         try:
             for i, r in enumerate(contract.get("requires", [])):
@@ -1220,7 +1228,7 @@ class Machine:
                 # assumed contract (DESIGN 6.1): int(math.sqrt(x)) is the integer square root of x
                 r = self.fresh("isqrt")
                 x = to_z3(v.x)
-                self.assume(z3.And(r >= 0, r * r <= x, x < (r + 1) * (r + 1)))
+                self.assume(z3.And(r >= 0, self.abs_mul(r, r) <= x, x < self.abs_mul(r + 1, r + 1)))
                 self.ctx.assumed.add("int(math.sqrt(x)) is the integer square root (exact below 2^52)")
                 return r
             if is_int(v):
